@@ -1069,6 +1069,166 @@ def skip_logdet_cases(chk, insts_by, only=None):
                     chk.traces_validated += 1
 
 
+MULTI_CLASSES = ["Dense<psd>", "AddedDiag(Dense<psd>,Diag)", "Kronecker(Dense<psd>,Dense<psd>)", "Toeplitz", "Sum(Toeplitz,Diag)",
+                 "ConstantMul(Dense<psd>)", "LowRankRootAddedDiag"]
+
+
+def multi_output_cases(chk, only=None):
+    """Entry points that return SEVERAL outputs / one output per column, with a NON-TRIVIAL upstream gradient on every output
+    (per-batch, per-row / per-column integer weights — never `.sum()`), on BATCHED operators whose batch size is (a) different
+    from N and (b) EQUAL to N (a mis-aligned unsqueeze of the upstream gradient then broadcasts silently), float64:
+      * sqrt_lhs  — `op.sqrt_inv_matmul(rhs, lhs)` -> (lhs A^-1/2 rhs, diag(lhs A^-1 lhs^T)); number of lhs rows l in {2, N};
+                    theorem sqrtInvMatmul_backward_lhs (sqrt block + weighted inv_quad block);
+      * iq_cols   — `op.inv_quad(rhs, reduce_inv_quad=False)` (one value per column; theorem invQuad_backward_weighted);
+      * iql_cols  — `op.inv_quad_logdet(rhs, logdet=True, reduce_inv_quad=False)` (per-column inv_quad AND per-batch logdet),
+                    Cholesky path and CG path (complete orthonormal probe set);
+    gradients w.r.t. lhs, rhs and every operator tensor (and each of them alone: the needs_input_grad branches) against the dense
+    reference (eigh-based inverse square root / torch.linalg.solve / logdet).  Own random stream."""
+    from linear_operator import settings
+    from linear_operator.operators import LinearOperator
+    rng = random.Random(f"C07q:{chk.seed}")
+    quick = chk.tier == "quick"
+    by_batch = {b: {i.name: i for i in ops.instances(rng, (b,), 3, mode="full", psd=True)} for b in (2, 3, 6)}
+    for cname in MULTI_CLASSES:
+        if cname not in by_batch[2]:
+            continue
+        N = by_batch[2][cname].shape()[0]
+        for b in (2, N):
+            inst = by_batch.get(b, {}).get(cname)
+            if inst is None:
+                continue
+            kinds = [("sqrt_lhs", l_) for l_ in ((N if b == N else 2,) if quick else (2, N))] + [("iq_cols", 0), ("iql_cols", 0)]
+            for kind, l_ in kinds:
+                cfgs = ["default", "chol0"] if kind == "iql_cols" else ["default"]
+                reqs = ["all", "lhs", "rhs", "leaves"] if kind == "sqrt_lhs" else ["all", "rhs", "leaves"]
+                if quick:
+                    reqs = ["all", rng.choice(reqs[1:])]
+                for cfg, rq in itertools.product(cfgs, reqs):
+                    cell = f"C07/entry-multi/{kind}/{cname}<b=({b},)|N={N}>/l={l_}/cfg={cfg}/req={rq}"
+                    if only and not cell.startswith(only):
+                        continue
+                    payload = {"cell": cell, "seed": chk.seed, "tier": chk.tier}
+                    try:
+                        one_multi_output(chk, rng, inst, kind, l_, N, b, cfg, rq, cell, payload, settings, LinearOperator)
+                    except Exception as e:  # noqa
+                        chk.violation(cell + "/exception", f"{type(e).__name__}: {str(e)[:300]}", payload)
+
+
+def one_multi_output(chk, rng, inst, kind, l_, N, b, cfg, rq, cell, payload, settings, LinearOperator):
+    nb = tuple(inst.nb)
+    c = 2 if b != 2 else 3  # number of columns different from the batch size unless the batch size is N
+    rhs0 = ops.ri(rng, (*nb, N, c), -2, 2).double()
+    lhs0 = ops.ri(rng, (*nb, l_, N), -2, 2).double() if kind == "sqrt_lhs" else None
+    leaf_req = rq in ("all", "leaves")
+    names = list(inst.names) if leaf_req else []
+    rhs_req = rq in ("all", "rhs")
+    lhs_req = rq in ("all", "lhs") and lhs0 is not None
+    ev = torch.linalg.eigvalsh(inst.dense(inst.params()).detach())
+    if float(ev.min()) <= 1e-6:
+        chk.count("skipped:not-pd:multi")
+        return
+    # float64: eigh's backward loses eps/gap digits, so the eigh-based reference is used down to a relative gap of 1e-3; for
+    # (nearly) repeated eigenvalues (integer Toeplitz columns produce them exactly) the reference inverse square root is the
+    # Denman-Beavers iteration (plain torch, smooth in A, no eigenvalue gaps involved)
+    use_db = kind == "sqrt_lhs" and ev.shape[-1] > 1 and float(((ev[..., 1:] - ev[..., :-1]).min(-1).values / ev.max(-1).values).min()) < 1e-3
+    if use_db:
+        chk.count("entry-multi:reference=denman-beavers")
+    weights = {}
+
+    def wfor(key, shape):  # the same non-uniform integer weights on both sides
+        if key not in weights:
+            w = ops.ri(rng, tuple(shape), 1, 4).double()
+            w = w + torch.arange(w.numel(), dtype=torch.float64).reshape(w.shape) % 3  # never constant along any axis of size > 1
+            weights[key] = w
+        return weights[key]
+
+    def side(is_op):
+        P = inst.params(set(names))
+        rhs = rhs0.clone().requires_grad_(rhs_req)
+        lhs = None if lhs0 is None else lhs0.clone().requires_grad_(lhs_req)
+        A = inst.build(P) if is_op else inst.dense(P)
+        if kind == "sqrt_lhs":
+            if is_op:
+                res, iq = A.sqrt_inv_matmul(rhs, lhs)
+            else:
+                As = (A + A.mT) / 2
+                if use_db:
+                    Y, Z = As, torch.eye(N, dtype=As.dtype).expand_as(As)
+                    for _ in range(40):
+                        Y, Z = (Y + torch.linalg.inv(Z)) / 2, (Z + torch.linalg.inv(Y)) / 2
+                    res = lhs @ (Z @ rhs)
+                else:
+                    lam, Q = torch.linalg.eigh(As)
+                    res = lhs @ (Q @ ((Q.mT @ rhs) / lam.sqrt().unsqueeze(-1)))
+                iq = (lhs * torch.linalg.solve(As, lhs.mT).mT).sum(-1)
+            outs = [("sqrt", res), ("inv_quad", iq)]
+        elif kind == "iq_cols":
+            iq = A.inv_quad(rhs, reduce_inv_quad=False) if is_op else (rhs * torch.linalg.solve(A, rhs)).sum(-2)
+            outs = [("inv_quad", iq)]
+        else:
+            if is_op:
+                iq, ld = A.inv_quad_logdet(rhs, logdet=True, reduce_inv_quad=False)
+            else:
+                iq, ld = (rhs * torch.linalg.solve(A, rhs)).sum(-2), torch.logdet(A)
+            outs = [("inv_quad", iq), ("logdet", ld)]
+        inputs = [P[k] for k in names] + ([rhs] if rhs_req else []) + ([lhs] if lhs_req else [])
+        return outs, inputs
+
+    with ExitStack() as st:
+        if kind == "sqrt_lhs":
+            st.enter_context(settings.minres_tolerance(1e-9))
+            st.enter_context(settings.num_contour_quadrature(40))
+            st.enter_context(settings.max_cg_iterations(400))
+        if cfg == "chol0":
+            st.enter_context(settings.max_cholesky_size(0))
+            st.enter_context(settings.cg_tolerance(1e-10))
+            st.enter_context(settings.max_cg_iterations(200))
+            st.enter_context(settings.max_lanczos_quadrature_iterations(50))
+            st.enter_context(mock.patch.object(LinearOperator, "_probe_vectors_and_norms", eye_probes))
+        torch.manual_seed(rng.randrange(2 ** 31))
+        try:
+            outs_i, in_i = side(True)
+        except Exception as e:  # forward failure: not a gradient question
+            chk.count("skipped:forward-raises")
+            chk.count(f"skipped:forward-raises:multi:{kind}:{type(e).__name__}")
+            return
+        loss_i = sum((o * wfor(k, o.shape)).sum() for k, o in outs_i)
+        gi = torch.autograd.grad(loss_i, in_i, allow_unused=True) if in_i else []
+    outs_r, in_r = side(False)
+    chk.case(f"{cell}|rhs={rhs0.flatten()[:4].tolist()}", nontrivial=True)
+    chk.count("entry-multi:" + kind)
+    tol = 5e-3 if kind == "sqrt_lhs" else (2e-4 if cfg == "chol0" else 1e-7)
+    stochastic = cfg == "chol0"
+    for (k, oi), (_, orf) in zip(outs_i, outs_r):
+        if tuple(oi.shape) != tuple(orf.shape):
+            chk.count("skipped:forward-shape")
+            chk.count(f"skipped:forward-shape:multi:{kind}:{k}")
+            return
+        if not (stochastic and k == "logdet") and not close(oi.detach(), orf.detach(), False, tol * 10):
+            chk.count("skipped:forward-value")
+            chk.count(f"skipped:forward-value:multi:{kind}:{k}")
+            return
+    loss_r = sum((o * wfor(k, o.shape)).sum() for k, o in outs_r)
+    gr = torch.autograd.grad(loss_r, in_r, allow_unused=True) if in_r else []
+    labels = names + (["<rhs>"] if rhs_req else []) + (["<lhs>"] if lhs_req else [])
+    for lab, a, bb, t in zip(labels, gi, gr, in_r):
+        if a is None and bb is not None and bool((bb != 0).any()):
+            chk.violation(cell + "/grad-none", f"{lab} {tuple(t.shape)} requires grad but backpropagation delivers None; dense reference "
+                          f"{bb.flatten()[:6].tolist()}", payload)
+            return
+        a, bb = zeros_like_none(a, t), zeros_like_none(bb, t)
+        if tuple(a.shape) != tuple(t.shape):
+            chk.violation(cell + "/grad-shape", f"gradient w.r.t. {lab} has shape {tuple(a.shape)}, tensor {tuple(t.shape)}", payload)
+            return
+        if lab in inst.sym:
+            a, bb = (a + a.mT) / 2, (bb + bb.mT) / 2
+        if not close(a, bb, False, tol):
+            chk.violation(cell + "/grad", f"weighted outputs {[k for k, _ in outs_i]} (per-batch / per-column weights): gradient w.r.t. {lab} {tuple(t.shape)}: impl "
+                          f"{a.flatten()[:6].tolist()} vs dense reference {bb.flatten()[:6].tolist()} (max abs diff {float((a - bb).abs().max()):.3e})", payload)
+            return
+    chk.traces_validated += 1
+
+
 def translator_cases(chk):
     """C07Funcs.lean (generated): cross-check the AST facts against the run-time objects."""
     import inspect
@@ -1133,7 +1293,7 @@ def run(chk, only=None):
                 "subset of leaves requiring grad; entry points x rhs shape x memory_efficient x max_cholesky_size; a case is distinct by its cell, "
                 "subset and random integer data; all are non-trivial (sizes >= 2, non-zero data); session 5: entry-model cells (to_dense / diagonal / "
                 "getitem / sum through the implementation vs the Lean factors), bilinear-mixed cells (direct _bilinear_derivative calls with the mixed "
-                "batch shapes Matmul.backward produces), entry-skiplogdet cells (skip_logdet_forward on/off x memory_efficient), translator cells "
+                "batch shapes Matmul.backward produces), entry-multi cells (sqrt_inv_matmul with lhs / inv_quad and inv_quad_logdet with reduce_inv_quad=False: per-batch, per-column upstream weights on every output, batch size = N and != N), entry-skiplogdet cells (skip_logdet_forward on/off x memory_efficient), translator cells "
                 "(ast table of the 9 autograd Functions and of the provider of every operator class's _bilinear_derivative vs run-time objects)")
     chk.assumptions += ["torch.autograd applies the chain rule correctly to plain torch code (the dense reference) and to the library's backward formulas",
                         "dual numbers (eps^2 = 0) define the derivative of polynomial operators; floating point is not modelled (integer data are exact)",
@@ -1169,6 +1329,8 @@ def run(chk, only=None):
         bilinear_mixed_cases(chk, insts_by, only)
     if part in (None, "entry-skiplogdet"):
         skip_logdet_cases(chk, insts_by, only)
+    if part in (None, "entry-multi"):
+        multi_output_cases(chk, only)
 
 
 def replay(chk, payload):
